@@ -8,7 +8,7 @@ from .. import b2check, core, gen
 
 
 def jobs(rng, thorough):
-    n = 15000 if thorough else 600
+    n = 80000 if thorough else 600
     out = []
     for _ in range(n):
         out.append((gen.conn_keepalive(rng), rng.randrange(10 ** 9), rng.choice([0, 3, 6, 10])))
